@@ -53,9 +53,11 @@ pub fn check_cmd(args: &[String]) -> i32 {
         "C02" => c02(&a),
         "C03" => c03(&a),
         "C04" => c04(&a),
+        "C05" => c05(&a),
         "C06" => c06(&a),
         "C07" => c07(&a),
         "C08" => c08(&a),
+        "C09" => c09(&a),
         "C10" => c10(&a),
         "C14" => c14(&a),
         "C11" => c11(&a),
@@ -180,7 +182,6 @@ fn c01(a: &Args) -> Report {
         specs.push(t);
     }
     let results: Vec<_> = specs.iter().map(|s| seq::bfs(s, a.threads, &no_known)).collect();
-    let _ = evidence::verif_root();
     seq_report("C01", a, "model_checking", results, "BFS over operation sequences; a state is the canonical reference-model state; distinct_nontrivial counts distinct query-answer vectors observed")
 }
 
@@ -336,7 +337,27 @@ fn c10(a: &Args) -> Report {
         specs.push(s);
     }
     let results = run_specs(&specs, a, &no_known);
-    seq_report("C10", a, "model_checking", results, SEQ_RULE)
+    let mut rep = seq_report("C10", a, "model_checking", results, SEQ_RULE);
+    // unit part: exhaustive over small filter domains
+    let (st, viols) = crate::engines::filters::run(thorough);
+    if let serde_json::Value::Object(o) = &mut rep.coverage {
+        o.insert("filter_unit".into(), json!(st));
+        let add = |o: &mut serde_json::Map<String, serde_json::Value>, k: &str, n: usize| {
+            let cur = o.get(k).and_then(|x| x.as_u64()).unwrap_or(0);
+            o.insert(k.into(), json!(cur + n as u64));
+        };
+        add(o, "states", st.configurations);
+        add(o, "transitions", st.subsets_checked);
+        add(o, "traces_validated_against_impl", st.subsets_checked);
+        add(o, "evaluations", st.subsets_checked);
+        add(o, "distinct_nontrivial", st.distinct_bit_patterns);
+    }
+    for (name, fs) in viols {
+        let desc = format!("[C10/unit] {name} :: {}", fs[0].detail);
+        rep.violations.push((json!({"engine": "filters", "case": name, "findings": fs}), desc));
+    }
+    rep.violations.truncate(10);
+    rep
 }
 
 fn c13(a: &Args) -> Report {
@@ -1113,6 +1134,82 @@ fn c06(a: &Args) -> Report {
         wall_s: 0.0,
         violations,
         known: known_hits,
+        machinery_errors: machinery,
+    }
+}
+
+fn c09(a: &Args) -> Report {
+    let thorough = a.tier == "thorough";
+    let (st, viols) = crate::engines::index::run(thorough, a.threads);
+    let mut violations = Vec::new();
+    let mut machinery = Vec::new();
+    for (shape, fs) in &viols {
+        if fs.iter().any(|f| f.kind == "machinery") {
+            machinery.push(format!("{shape:?}: {fs:?}"));
+            continue;
+        }
+        let desc = format!("index of {} keys of {} bytes, {:?} :: {}: {}", shape.n, shape.key_len, shape.dist, fs[0].kind, fs[0].detail);
+        violations.push((json!({"engine": "index", "shape": shape, "findings": fs}), desc));
+    }
+    violations.truncate(10);
+    Report {
+        property: "C09".into(),
+        tier: a.tier.clone(),
+        seed: a.seed,
+        level: "model_checking".into(),
+        coverage: json!({
+            "states": st.shapes,
+            "transitions": st.lookups,
+            "traces_validated_against_impl": st.shapes,
+            "evaluations": st.shapes,
+            "distinct_nontrivial": st.shapes,
+            "rule": "explicit enumeration of header-multiset shapes per key length: every key count 1..N with one and with two versions per key; one key carrying a run of r versions (r up to two leaf blocks + 2; ascending / descending / tied timestamps / with deletion markers) placed first, middle, last at key counts around the block size; each shape: build in memory, dump with the real serializer, compare get_latest and get_all_with_deletion_marker for every present key and for absent keys below, between and above, count, reopen, load back; transitions = lookups compared; every shape is distinct",
+            "samples": st.samples,
+            "exhaustive": true,
+            "max_keys": st.max_keys,
+            "shapes_per_key_len": st.per_key_len,
+        }),
+        assumptions: vec!["the index is driven through the IndexProbe hook (same IndexStruct / BPTreeFileIndex code the storage uses)".into()],
+        wall_s: 0.0,
+        violations,
+        known: vec![],
+        machinery_errors: machinery,
+    }
+}
+
+fn c05(a: &Args) -> Report {
+    let thorough = a.tier == "thorough";
+    let (st, viols) = crate::engines::bytes::run(thorough, a.threads);
+    let mut violations = Vec::new();
+    let mut machinery = Vec::new();
+    for (name, fs) in &viols {
+        if fs.iter().any(|f| f.kind == "machinery") {
+            machinery.push(format!("{name}: {fs:?}"));
+            continue;
+        }
+        violations.push((json!({"engine": "bytes", "case": name, "findings": fs}), format!("[{name}] {}: {}", fs[0].kind, fs[0].detail)));
+    }
+    violations.truncate(10);
+    Report {
+        property: "C05".into(),
+        tier: a.tier.clone(),
+        seed: a.seed,
+        level: "fault_enumeration".into(),
+        coverage: json!({
+            "evaluations": st.roundtrip_checks + st.corruption_cases,
+            "distinct_nontrivial": st.corruption_cases + st.roundtrip_checks,
+            "rule": "round trip: value lengths {0..3, around 4096-H, 4095..4097, around 81920-H, 81919..81921, 200000[, 1000000]} x 4 metadata shapes x index {in memory, on disk, regenerated} x I/O mode x key length {4, 33}, every way of reading (read, read_with, load, load_data, load_meta) compared byte for byte; corruption: for a 24 B, 900 B, 5 KiB and 90 KiB record every enumerated data-byte position x {xor 01, 80, ff, 2-byte ffff, 4-byte ffffffff, sparse 80000001; for the 24 B record all single-bit and all two-bit flips in a 32-bit window} applied through a second descriptor with the index in memory and on disk, plus between sessions with validation on/off; every case is distinct",
+            "samples": st.samples,
+            "exhaustive": true,
+            "roundtrip_configs": st.roundtrip_configs,
+            "roundtrip_checks": st.roundtrip_checks,
+            "corruption_cases": st.corruption_cases,
+            "corruptions_answered_with_error_or_quarantine": st.corruptions_detected,
+        }),
+        assumptions: vec!["corruptions of at most 32 contiguous bits (the CRC32C guarantee); metadata content carries no checksum of its own and is out of scope of the corruption part".into()],
+        wall_s: 0.0,
+        violations,
+        known: vec![],
         machinery_errors: machinery,
     }
 }
